@@ -88,7 +88,7 @@ class MsgGen:
 
     def response(self, cc, nsess=0, encrypt=False, rc=0):
         if rc:
-            tagv = self.rnd.choice([TAG_NO, TAG_SESS])
+            tagv = 0x00C4 if rc == 0x1E else self.rnd.choice([TAG_NO, TAG_SESS])     # TPM_RC_BAD_TAG: the TPM 1.2-style reply, tag RSP_COMMAND
             fields = [("tag", ("I", "TPM_ST", tagv)), ("responseSize", ("I", "UINT32", 10)), ("responseCode", ("I", "TPM_RC", rc))]
             return ("O", "Response", False, fields), tagv.to_bytes(2, "big") + (10).to_bytes(4, "big") + rc.to_bytes(4, "big"), \
                 {"cc": cc, "nsess": 0, "encrypt": False, "rc": rc}
@@ -128,7 +128,7 @@ class MsgGen:
         encrypt = allow_enc and nsess > 0 and self.can_encrypt(cc, True) and self.rnd.random() < 0.35
         c = self.command(cc, nsess, decrypt, encrypt)
         if self.rnd.random() < 0.2:
-            r = self.response(cc, rc=self.rnd.choice([0x101, 0x1C4, 0x922, 0x9A2, 0x84, 0x18B]))
+            r = self.response(cc, rc=self.rnd.choice([0x101, 0x1C4, 0x922, 0x9A2, 0x84, 0x18B, 0x1E, 0x1E]))
         else:
             # response encryption requires a session area in the response too
             rn = max(nsess, 1) if encrypt else self.rnd.choice([nsess, nsess, nsess, -1 if nsess else 0])
